@@ -16,6 +16,10 @@ import Agd.Driver.Util
 * `matcher SUF0 i0 SUF1 i1` → `ok`                    (NewMatcher)
 * `txt HOST QT`             → `pass` | `refused` | `txt …`  (preservice through MatchByPrefix)
 * `mbp HOST`                → `nomatch` | `err` | `ok …`    (Matcher.MatchByPrefix)
+* `question FLAGS QNAME QT` → `none` | `list i rule HOST`   (question name as sent, through the group's
+                              switches: FLAGS = five 0/1 for safe browsing on, dangerous, newly registered,
+                              parental on, adult)
+* `qtxt QNAME QT`           → as `txt`, from the question name as sent (not normalised)
 -/
 namespace Agd.Driver.C11
 open Agd.HashPrefix Agd.Driver
@@ -83,6 +87,14 @@ def step (s : S) : List String → S × String
   | "matcher" :: rest => ({ s with cfg := parseCfg rest }, "ok")
   | ["txt", host, qt] =>
     (s, match respond s.stores s.cfg (fromHex host) (nat! qt) with
+        | .pass => "pass" | .refused => "refused" | .txt hs => "txt " ++ showDigests hs)
+  | ["question", flags, qname, qt] =>
+    let f := flags.toList.map (· == '1')
+    let en := enabledLists (f.getD 0 false) (f.getD 1 false) (f.getD 2 false) (f.getD 3 false) (f.getD 4 false)
+    (s, match questionVerdict H s.ps s.stores en (fromHex qname) (nat! qt) with
+        | none => "none" | some (i, r) => s!"list {i} rule " ++ toHex r)
+  | ["qtxt", qname, qt] =>
+    (s, match questionRespond s.stores s.cfg (fromHex qname) (nat! qt) with
         | .pass => "pass" | .refused => "refused" | .txt hs => "txt " ++ showDigests hs)
   | ["mbp", host] =>
     (s, match matchByPrefix s.stores s.cfg (fromHex host) with
